@@ -105,7 +105,14 @@ def gen_case_methods(seed, i):
     if r.random() < 0.25:
         # the collect() function: the returned lines are narrowed, for every entry point alike
         mp += " " + r.choice(["collect(0)", "collect(1, 0)", 'collect("a", "b")', 'collect("n")', "collect(2)", '#b -> collect("a")'])
-    return {"recs": recs, "scan": sp, "match": mp, "policy": policy, "profile": prof}
+    case = {"recs": recs, "scan": sp, "match": mp, "policy": policy, "profile": prof}
+    k = r.random()
+    if k < 0.2 and "collect(" not in mp:
+        # the same run whichever lines are handed back or kept aside (not together with the collect() function: narrowing an
+        # unmatched line that is blank or short raises under collect() only — a combination of a mode and a function that
+        # neither C07's nor C15's quantifier reaches)
+        case["modes"] = r.choice(["unmatched-mode: keep", "return-mode: no-matches", "unmatched-mode: keep return-mode: no-matches"])
+    return case
 
 
 def case_methods(case):
@@ -113,7 +120,9 @@ def case_methods(case):
 
     recs = case["recs"]
     path = real_run.write_file("m.csv", recs)
-    text = f"${path}[{case['scan']}][{case['match']}]"
+    modes = case.get("modes") or ""
+    text = (f"~ {modes} ~ " if modes else "") + f"${path}[{case['scan']}][{case['match']}]"
+    cfg = {"cwnm": "no-matches" in modes, "will_run": True, "unmatched_avail": "keep" in modes} if modes else None
     res = {"case": case, "disagree": [], "oracle": [], "nontrivial": False}
     runs = {}
     for meth in ("collect", "next", "ff"):
@@ -122,7 +131,7 @@ def case_methods(case):
             res["parse_error"] = out["parse_error"]
             return res
         runs[meth] = out
-        res["disagree"] += compare_with_model(meth, case["scan"], recs, meth, out)
+        res["disagree"] += compare_with_model(meth, case["scan"], recs, meth, out, cfg=cfg)
     c, nx, ff = runs["collect"], runs["next"], runs["ff"]
     if has_recursion_error(c, nx, ff):
         # a look-ahead that recurses until Python's stack is exhausted: the outcome depends on the
@@ -148,7 +157,7 @@ def case_methods(case):
     # collect(nexts=n) for n = 1 .. matches+1
     for n in range(1, nlines + 2):
         out, p = real_run.run_single(text, "collectN", n, policy=case["policy"])
-        res["disagree"] += compare_with_model(f"collect(nexts={n})", case["scan"], recs, "collectN", out, n=n)
+        res["disagree"] += compare_with_model(f"collect(nexts={n})", case["scan"], recs, "collectN", out, cfg=cfg, n=n)
         if out.get("lines") != c["lines"][:n]:
             res["oracle"].append({"what": f"collect(nexts={n}) is not the first {n} lines of collect()",
                                   "got": out.get("lines"), "want": c["lines"][:n]})
